@@ -43,7 +43,7 @@ FLAGS = ["GuessSticks", "MicroinchIsMil", "MutNoRelabel", "MutInverse", "MutSkip
 MC_INVS = ["LabelIsLastSet", "GeometryIsProduct", "FailedConvertChangesNothing", "NoUnitsNoGuessRaises",
            "UnknownNameRaises", "KnownConverts", "ConvertToCurrentIsNoop", "RoundTrip",
            "UnitsAgreeAfterConvert", "CopyCarries", "LeftBehindFrozen", "SceneConvertLeavesOriginal",
-           "GuessDecidable"]
+           "LogBudget"]
 TABLE_INVS = ["TableInv", "TableAgrees", "ScenarioSound"]
 
 # switch -> (kind, raws, invariant TLC must report)
@@ -475,14 +475,15 @@ def main(argv):
         job("emit-scene-leaf", "esl", cfg("scene", "RawsTwo", "HintsSome", 2, view=None, invs=["EmitLeaf"], **e), workers=1)
         nsim, dsim = 12, 8
     else:
-        job("emit-geom-cover", "egc", cfg("geom", "RawsCover", "HintsAll", 4, view="CoverView", invs=["EmitAll"], **e), workers=1)
+        job("emit-geom-cover", "egc", cfg("geom", "RawsQuick", "HintsAll", 4, view="CoverView", invs=["EmitAll"], **e), workers=1)
+        job("emit-geom-cover3", "egc3", cfg("geom", "RawsCover", "HintsAll", 3, view="CoverView", invs=["EmitAll"], **e), workers=1)
         job("emit-geom-leaf", "egl", cfg("geom", "RawsQuick", "HintsSome", 3, view=None, invs=["EmitLeaf"], **e), workers=1)
-        job("emit-scene-cover", "esc", cfg("scene", "RawsCover", "HintsSome", 4, view="CoverView", invs=["EmitAll"], **e), workers=1)
-        job("emit-scene-leaf", "esl", cfg("scene", "RawsQuick", "HintsSome", 3, view=None, invs=["EmitLeaf"], **e), workers=1)
-        nsim, dsim = 400, 12
+        job("emit-scene-cover", "esc", cfg("scene", "RawsQuick", "HintsSome", 4, view="CoverView", invs=["EmitAll"], **e), workers=1)
+        job("emit-scene-leaf", "esl", cfg("scene", "RawsTwo", "HintsSome", 3, view=None, invs=["EmitLeaf"], **e), workers=1)
+        nsim, dsim = 150, 12
     for kind in ("geom", "scene"):
         job(f"emit-{kind}-sim", "sim" + kind,
-            cfg(kind, "RawsWide", "HintsAll", dsim, view=None, invs=["EmitLeaf", "GuessDecidable"], **e),
+            cfg(kind, "RawsWide", "HintsAll", dsim, view=None, invs=["EmitLeaf", "LogBudget"], **e),
             workers=1, simulate=f"num={nsim}", depth=dsim + 1, seed=seed() + 11)
 
     def run(name):
@@ -536,6 +537,7 @@ def main(argv):
         else:
             tlc.must(r, name)
         got = [b for b in r.printed if isinstance(b, dict) and "h" in b and b["h"]]
+        r.printed, r.stdout = [], ""          # hundreds of MB in the thorough tier
         counts[name] = len(got)
         small = "leaf" in name
         for b in got:
